@@ -4,11 +4,12 @@
 INDEX = {
     "C01": ["c01"],
     "C02": ["c01"],
-    "C03": ["c03", "c20", "c16", "c11"],
+    "C03": ["c03", "c20", "c16", "c11", "c09"],
     "C04": ["c06"],
     "C05": ["c05"],
     "C06": ["c06"],
     "C07": ["c06"],
+    "C09": ["c09"],
     "C11": ["c11"],
     "C16": ["c16"],
     "C19": ["c19"],
